@@ -726,6 +726,44 @@ def corr_num(ctx, sf, rng):
             ctx.disagree("genNum vs _factor_out_pi", dict(x=x), model, impl)
 
 
+def corr_names(ctx, sf, rng):
+    """the index parsers on symbol names (model measuredIndex / ptypeIndex / qName / pName) against the real
+    par_convert, tdm.is_ptype + int(name[1:]), MeasuredParameter names and TDM loop-variable names"""
+    import sympy
+    import strawberryfields.parameters as sfpar
+    from strawberryfields.tdm import is_ptype
+    if not ctx.proof_ok:
+        return
+    idxs = list(range(0, 25)) + [rng.randint(25, 400) for _ in range(20)] + [99, 100, 101, 999, 1000]
+    names = [f"q{i}" for i in idxs] + [f"p{i}" for i in idxs] + \
+        ["q", "p", "q1x", "p1x", "qx1", "px", "q_1", "p_1", "quality", "pump", "Q1", "P1", "q01", "p007", "x", "q1 ", "q-1", "alpha"]
+    res = ctx.lean([dict(op="io.names", names=names, indices=idxs)])[0]
+    big = sf.Program(max(idxs) + 1)
+    for name, (mi, pi) in zip(names, res["parsed"]):
+        ctx.corr_cases += 1
+        # par_convert on the bare symbol: a measured parameter of which subsystem?
+        try:
+            out = sfpar.par_convert([sympy.Symbol(name)], big)[0]
+            real_m = out.regref.ind if isinstance(out, sfpar.MeasuredParameter) else None
+        except Exception as e:  # noqa: BLE001
+            real_m = "raises " + type(e).__name__
+        real_p = int(name[1:]) if is_ptype(name) else None
+        if mi != real_m:
+            ctx.disagree("measuredIndex vs par_convert", dict(name=name), mi, real_m)
+        if pi != real_p:
+            ctx.disagree("ptypeIndex vs is_ptype/int", dict(name=name), pi, real_p)
+    tp = sf.TDMProgram(N=2)
+    with tp.context(*[[0.0, 1.0] for _ in range(30)]) as (p, q):
+        pass
+    for i, (qn, pn) in zip(idxs, res["printed"]):
+        ctx.corr_cases += 1
+        real_q = sfpar.MeasuredParameter(big.register[i]).name
+        if qn != real_q:
+            ctx.disagree("qName vs MeasuredParameter.name", dict(i=i), qn, real_q)
+        if i < 30 and pn != p[i].name:
+            ctx.disagree("pName vs TDM loop variable name", dict(i=i), pn, p[i].name)
+
+
 def _strip_unmodelled(model, impl):
     return isinstance(model, dict) and model.get("err") == "unmodelled"
 
@@ -835,6 +873,7 @@ def run(ctx, sf):
     reqs, pending = [], []
     corr_pi(ctx, sf)
     corr_num(ctx, sf, rng)
+    guarded(ctx, "correspondence(names)", dict(name="names"), corr_names, ctx, sf, rng)
     for m in list(range(-150, 151)) + [12 * k for k in (13, 17, 25, 100, -33)]:
         for val in (m * np.pi / 12, np.pi * m / 12, m * (np.pi / 12)):   # the three roundings of m*pi/12
             oracle_pi(ctx, sf, float(val))
